@@ -58,6 +58,8 @@ func (f *StructField) validate() error {
 	t := f.Type
 
 	switch {
+	case t.Kind == KindAny, t.Kind == KindAnyMessage:
+		// not value types
 	case t.builtin():
 		return nil
 	case t.Kind == KindStruct:
